@@ -15,6 +15,11 @@ func init() {
 }
 
 func runC20(c *Ctx) {
+	// the conservation clauses over the SECS-I transport
+	c20SECS1(c, 6, 2, 3)
+	if c.Thorough() {
+		c20SECS1(c, 16, 6, 8)
+	}
 	// sequential per-outcome deltas, with a deselect window
 	for k := 0; k < c.Pick(4, 12); k++ {
 		evalHistoryC20(c, seqSpecC20(c, k))
@@ -23,7 +28,7 @@ func runC20(c *Ctx) {
 	sizes := []int{1, 2, 4, 8, 16, 32, 64}
 	for k := 0; k < c.Pick(2, 8); k++ {
 		for _, n := range sizes {
-			for _, mix := range []string{"clean", "collide", "timeout", "all"} {
+			for _, mix := range []string{"clean", "collide", "timeout", "all", "session"} {
 				if routerStop(c) {
 					return
 				}
@@ -211,6 +216,9 @@ func oracleC20(c *Ctx, sp *rSpec, h *rHistory, replay map[string]any) string {
 				selected = true
 			case f.IsData() && f.WriteOK && selected:
 				dataOut++
+				if sp.ValidateSession && f.Session != 0xFFFF {
+					c.Stat("foreign-session-data-frame")
+				}
 			case f.IsData() && f.WriteOK:
 				c.Stat("data-frame-while-deselected")
 			}
